@@ -182,10 +182,10 @@ fn to_py(core: &Core, ind: usize) -> String {
         Core::Block { statements } => newline_delimited(statements, ind),
 
         Core::PropertyCall { object, property } => {
-            format!("{}.{}", to_py(object, ind), to_py(property, ind))
+            format!("{}.{}", operand(object, ind), to_py(property, ind))
         }
         Core::FunctionCall { function, args } => {
-            format!("{}({})", to_py(function, ind), comma_delimited(args, ind))
+            format!("{}({})", operand(function, ind), comma_delimited(args, ind))
         }
 
         Core::DictComprehension {
@@ -258,73 +258,73 @@ fn to_py(core: &Core, ind: usize) -> String {
         Core::Ge { left, right } => {
             format!(
                 "{} > {}",
-                to_py(left.as_ref(), ind),
-                to_py(right.as_ref(), ind)
+                operand(left.as_ref(), ind),
+                operand(right.as_ref(), ind)
             )
         }
         Core::Geq { left, right } => {
             format!(
                 "{} >= {}",
-                to_py(left.as_ref(), ind),
-                to_py(right.as_ref(), ind)
+                operand(left.as_ref(), ind),
+                operand(right.as_ref(), ind)
             )
         }
         Core::Le { left, right } => {
             format!(
                 "{} < {}",
-                to_py(left.as_ref(), ind),
-                to_py(right.as_ref(), ind)
+                operand(left.as_ref(), ind),
+                operand(right.as_ref(), ind)
             )
         }
         Core::Leq { left, right } => {
             format!(
                 "{} <= {}",
-                to_py(left.as_ref(), ind),
-                to_py(right.as_ref(), ind)
+                operand(left.as_ref(), ind),
+                operand(right.as_ref(), ind)
             )
         }
 
-        Core::Not { expr } => format!("not {}", to_py(expr.as_ref(), ind)),
+        Core::Not { expr } => format!("not {}", operand(expr.as_ref(), ind)),
         Core::And { left, right } => {
             format!(
                 "{} and {}",
-                to_py(left.as_ref(), ind),
-                to_py(right.as_ref(), ind)
+                operand(left.as_ref(), ind),
+                operand(right.as_ref(), ind)
             )
         }
         Core::Or { left, right } => {
             format!(
                 "{} or {}",
-                to_py(left.as_ref(), ind),
-                to_py(right.as_ref(), ind)
+                operand(left.as_ref(), ind),
+                operand(right.as_ref(), ind)
             )
         }
         Core::Is { left, right } => {
             format!(
                 "{} is {}",
-                to_py(left.as_ref(), ind),
-                to_py(right.as_ref(), ind)
+                operand(left.as_ref(), ind),
+                operand(right.as_ref(), ind)
             )
         }
         Core::IsN { left, right } => {
             format!(
                 "{} is not {}",
-                to_py(left.as_ref(), ind),
-                to_py(right.as_ref(), ind)
+                operand(left.as_ref(), ind),
+                operand(right.as_ref(), ind)
             )
         }
         Core::Eq { left, right } => {
             format!(
                 "{} == {}",
-                to_py(left.as_ref(), ind),
-                to_py(right.as_ref(), ind)
+                operand(left.as_ref(), ind),
+                operand(right.as_ref(), ind)
             )
         }
         Core::Neq { left, right } => {
             format!(
                 "{} != {}",
-                to_py(left.as_ref(), ind),
-                to_py(right.as_ref(), ind)
+                operand(left.as_ref(), ind),
+                operand(right.as_ref(), ind)
             )
         }
         Core::IsA { left, right } => {
@@ -335,55 +335,55 @@ fn to_py(core: &Core, ind: usize) -> String {
             )
         }
 
-        Core::AddU { expr } => format!("+{}", to_py(expr, ind)),
+        Core::AddU { expr } => format!("+{}", operand(expr, ind)),
         Core::Add { left, right } => {
             format!(
                 "{} + {}",
-                to_py(left.as_ref(), ind),
-                to_py(right.as_ref(), ind)
+                operand(left.as_ref(), ind),
+                operand(right.as_ref(), ind)
             )
         }
-        Core::SubU { expr } => format!("-{}", to_py(expr, ind)),
+        Core::SubU { expr } => format!("-{}", operand(expr, ind)),
         Core::Sub { left, right } => {
             format!(
                 "{} - {}",
-                to_py(left.as_ref(), ind),
-                to_py(right.as_ref(), ind)
+                operand(left.as_ref(), ind),
+                operand(right.as_ref(), ind)
             )
         }
         Core::Mul { left, right } => {
             format!(
                 "{} * {}",
-                to_py(left.as_ref(), ind),
-                to_py(right.as_ref(), ind)
+                operand(left.as_ref(), ind),
+                operand(right.as_ref(), ind)
             )
         }
         Core::Div { left, right } => {
             format!(
                 "{} / {}",
-                to_py(left.as_ref(), ind),
-                to_py(right.as_ref(), ind)
+                operand(left.as_ref(), ind),
+                operand(right.as_ref(), ind)
             )
         }
         Core::FDiv { left, right } => {
             format!(
                 "{} // {}",
-                to_py(left.as_ref(), ind),
-                to_py(right.as_ref(), ind)
+                operand(left.as_ref(), ind),
+                operand(right.as_ref(), ind)
             )
         }
         Core::Pow { left, right } => {
             format!(
                 "{} ** {}",
-                to_py(left.as_ref(), ind),
-                to_py(right.as_ref(), ind)
+                operand(left.as_ref(), ind),
+                operand(right.as_ref(), ind)
             )
         }
         Core::Mod { left, right } => {
             format!(
                 "{} % {}",
-                to_py(left.as_ref(), ind),
-                to_py(right.as_ref(), ind)
+                operand(left.as_ref(), ind),
+                operand(right.as_ref(), ind)
             )
         }
         Core::Sqrt { expr } => format!("math.sqrt({})", to_py(expr.as_ref(), ind)),
@@ -391,37 +391,37 @@ fn to_py(core: &Core, ind: usize) -> String {
         Core::BAnd { left, right } => {
             format!(
                 "{} & {}",
-                to_py(left.as_ref(), ind),
-                to_py(right.as_ref(), ind)
+                operand(left.as_ref(), ind),
+                operand(right.as_ref(), ind)
             )
         }
         Core::BOr { left, right } => {
             format!(
                 "{} | {}",
-                to_py(left.as_ref(), ind),
-                to_py(right.as_ref(), ind)
+                operand(left.as_ref(), ind),
+                operand(right.as_ref(), ind)
             )
         }
         Core::BXOr { left, right } => {
             format!(
                 "{} ^ {}",
-                to_py(left.as_ref(), ind),
-                to_py(right.as_ref(), ind)
+                operand(left.as_ref(), ind),
+                operand(right.as_ref(), ind)
             )
         }
-        Core::BOneCmpl { expr } => format!("~{}", to_py(expr, ind)),
+        Core::BOneCmpl { expr } => format!("~{}", operand(expr, ind)),
         Core::BLShift { left, right } => {
             format!(
                 "{} << {}",
-                to_py(left.as_ref(), ind),
-                to_py(right.as_ref(), ind)
+                operand(left.as_ref(), ind),
+                operand(right.as_ref(), ind)
             )
         }
         Core::BRShift { left, right } => {
             format!(
                 "{} >> {}",
-                to_py(left.as_ref(), ind),
-                to_py(right.as_ref(), ind)
+                operand(left.as_ref(), ind),
+                operand(right.as_ref(), ind)
             )
         }
 
@@ -433,8 +433,8 @@ fn to_py(core: &Core, ind: usize) -> String {
             to_py(col.as_ref(), ind),
             newline_if_body(body, ind)
         ),
-        Core::In { left, right } => format! {"{} in {}", to_py(left, ind), to_py(right, ind)},
-        Core::Index { item, range } => format!("{}[{}]", to_py(item, ind), to_py(range, ind)),
+        Core::In { left, right } => format! {"{} in {}", operand(left, ind), operand(right, ind)},
+        Core::Index { item, range } => format!("{}[{}]", operand(item, ind), to_py(range, ind)),
         Core::If { cond, then } => {
             format!(
                 "if {}:{}",
@@ -451,9 +451,9 @@ fn to_py(core: &Core, ind: usize) -> String {
         ),
         Core::Ternary { cond, then, el } => format!(
             "{} if {} else {}",
-            to_py(then.as_ref(), ind),
-            to_py(cond.as_ref(), ind + 1),
-            to_py(el.as_ref(), ind + 1)
+            operand(then.as_ref(), ind),
+            operand(cond.as_ref(), ind + 1),
+            operand(el.as_ref(), ind + 1)
         ),
         Core::While { cond, body } => {
             format!(
@@ -528,6 +528,46 @@ fn to_py(core: &Core, ind: usize) -> String {
         }
 
         Core::Raise { error } => format!("raise {}", to_py(error, ind)),
+    }
+}
+
+/// Print an operand of an operator, call, index or attribute access.
+///
+/// Compound expressions are parenthesised, so that Python groups the printed text exactly as the
+/// tree is nested, whatever the precedence of the surrounding and the nested operator.
+fn operand(core: &Core, ind: usize) -> String {
+    match core {
+        Core::Ge { .. }
+        | Core::Geq { .. }
+        | Core::Le { .. }
+        | Core::Leq { .. }
+        | Core::Not { .. }
+        | Core::Is { .. }
+        | Core::IsN { .. }
+        | Core::Eq { .. }
+        | Core::Neq { .. }
+        | Core::And { .. }
+        | Core::Or { .. }
+        | Core::Add { .. }
+        | Core::AddU { .. }
+        | Core::Sub { .. }
+        | Core::SubU { .. }
+        | Core::Mul { .. }
+        | Core::Mod { .. }
+        | Core::Pow { .. }
+        | Core::Div { .. }
+        | Core::FDiv { .. }
+        | Core::BAnd { .. }
+        | Core::BOr { .. }
+        | Core::BXOr { .. }
+        | Core::BOneCmpl { .. }
+        | Core::BLShift { .. }
+        | Core::BRShift { .. }
+        | Core::In { .. }
+        | Core::Ternary { .. }
+        | Core::AnonFun { .. }
+        | Core::TupleLiteral { .. } => format!("({})", to_py(core, ind)),
+        _ => to_py(core, ind),
     }
 }
 
